@@ -60,8 +60,6 @@ structure Tlv where
   | .bytes => some (words.ws.getD 1 0 / 2)
   | .words => some (words.ws.getD 1 0)
 
-def sitePad : String := "version_info.rs:parse_tlv &words[key.len().align_to(2) + 4..]"
-
 /-- src: version_info.rs:parse_tlv.  Returns the TLV and the new `state.words` (on `Err` the caller,
 `Parser::next`, empties `state.words`, so the value assigned before the error is never observed). -/
 def parseTlv (vlt : Vlt) (words : Sl) : Out (Tlv × Sl) :=
@@ -79,9 +77,8 @@ def parseTlv (vlt : Vlt) (words : Sl) : Out (Tlv × Sl) :=
     let tail := node.drop 3
     let key := wstrn tail
     if tail.len = key.len then .err .invalid else
-    -- words = &words[key.len().align_to(2) + 4..];      <- slice index panics when past the end
-    if align2 key.len + 4 > node.len then .panic sitePad else
-    let body := node.drop (align2 key.len + 4)
+    -- words = &words[cmp::min(key.len().align_to(2) + 4, words.len())..];
+    let body := node.drop (min (align2 key.len + 4) node.len)
     if valueLength > body.len then .err .invalid else
     let value := body.take valueLength
     let children := body.drop (min (align2 value.len) body.len)
